@@ -39,7 +39,7 @@ pub fn shrink(prop: &dyn Prop, idx: u64, tape: &TapeData, sig: &str) -> TapeData
     // 1. truncate lanes (everything past the end reads as 0)
     for lane in 0 .. best.lanes.len() {
         let mut len = best.lanes[lane].len();
-        while len > 0 {
+        while len > 0 && budget > 0 {
             let new_len = len / 2;
             let mut c = best.clone();
             c.lanes[lane].truncate(new_len);
@@ -53,9 +53,15 @@ pub fn shrink(prop: &dyn Prop, idx: u64, tape: &TapeData, sig: &str) -> TapeData
     // 2. zero blocks
     for lane in 0 .. best.lanes.len() {
         let mut block = best.lanes[lane].len().next_power_of_two().max(1);
-        while block >= 1 {
+        while block >= 1 && budget > 0 {
             let mut start = 0;
-            while start < best.lanes[lane].len() {
+            while start < best.lanes[lane].len() && budget > 0 {
+                // (once the budget or the time cap is used up nothing more is tried: on a tape of hundreds
+                // of thousands of entries even building the candidates would take minutes)
+                if started.elapsed() > TIME_CAP {
+                    budget = 0;
+                    break;
+                }
                 let end = (start + block).min(best.lanes[lane].len());
                 if best.lanes[lane][start .. end].iter().any(|v| *v != 0) {
                     let mut c = best.clone();
@@ -76,6 +82,10 @@ pub fn shrink(prop: &dyn Prop, idx: u64, tape: &TapeData, sig: &str) -> TapeData
     for lane in 0 .. best.lanes.len() {
         let mut i = 0;
         while i < best.lanes[lane].len() && budget > 0 {
+            if started.elapsed() > TIME_CAP {
+                budget = 0;
+                break;
+            }
             if best.lanes[lane][i] != 0 {
                 let mut c = best.clone();
                 c.lanes[lane][i] /= 2;
